@@ -170,7 +170,7 @@ def shard_limits(args):
                 m = dict(kind='req', fc=fc, address=a, count=q)
                 acc.inc('transitions')
                 check_any(acc, lay, st, m)
-    for q in (1, 1967, 1968):
+    for q in (1, 1967, 1968, 1969, 1976, 2000, 2001, 2040):      # up to the largest quantity whose byte count fits its field
         for a in (0, 3):
             m = dict(kind='req', fc=15, address=a, count=q, byte_count=(q + 7) // 8, bits=[True] * q)
             acc.inc('transitions')
@@ -184,11 +184,11 @@ def shard_limits(args):
         m = dict(kind='req', fc=16, address=0, count=n, byte_count=bc, registers=[0x7700 + i for i in range(bc // 2)])
         acc.inc('transitions')
         check_any(acc, lay, st, m)
-    for q in (1, 122, 123):
+    for q in (1, 122, 123, 124, 125, 127):
         m = dict(kind='req', fc=16, address=0, count=q, byte_count=2 * q, registers=list(range(q)))
         acc.inc('transitions')
         check_any(acc, lay, st, m)
-    for rq, wn in ((1, 1), (125, 121), (125, 1), (1, 121), (126, 1), (0, 1)):
+    for rq, wn in ((1, 1), (125, 121), (125, 1), (1, 121), (126, 1), (0, 1), (1, 122), (1, 125), (1, 127), (125, 122)):
         m = dict(kind='req', fc=23, read_address=0, read_count=rq, write_address=3, write_count=wn,
                  write_byte_count=2 * wn, write_registers=list(range(wn)))
         acc.inc('transitions')
